@@ -1279,7 +1279,8 @@ namespace avel {
 
     [[nodiscard]]
     AVEL_FINL vec2x64f fdim(vec2x64f x, vec2x64f y) {
-        return avel::max(x - y, vec2x64f{0.0});
+        //x - y is NaN for equal infinities; <cmath>'s fdim returns +0 there
+        return blend(x <= y, vec2x64f{0.0}, x - y);
     }
 
     [[nodiscard]]
